@@ -140,10 +140,11 @@ fn reference_has_tiny_pivot(ahat: &[Vec<f64>], signs: &[i8], reg: bool, eps: f64
             dk -= l[k][j] * l[k][j] * d[j];
             mag += (l[k][j] * l[k][j] * d[j]).abs();
         }
-        if !(mag < 1e100) {
+        let amax = ahat.iter().flatten().fold(0.0f64, |m, x| m.max(x.abs())).max(1e-300);
+        if !(mag < 1e12 * amax) {
             // regularised pivots of the wrong sign make the factors grow without bound (1e212 after ten steps);
-            // beyond the double range the engine's exact zero / non-finite pivots are not comparable: as for the
-            // unbounded-growth discard of successful factorisations, nothing is judged
+            // the engine's exact zero / non-finite pivots are then not comparable with a reference that rounds
+            // differently: same 1e12 growth limit as the unbounded-growth discard of successful factorisations
             return true;
         }
         let tiny = dk.abs() <= 1e-6 * mag || dk == 0.0;
